@@ -266,6 +266,11 @@ impl SubCheck for Unary {
         let s = call("Display", || d.to_string())?;
         let p = parse_display(&s).ok_or_else(|| format!("Display of {v} ns is not an exact decimal seconds form: {s:?}"))?;
         ensure_eq!(p, v, "Display of {v} ns = {s:?} read back");
+        // whatever the format specification asks for, the number stays exact
+        for (spec, t) in [("{:.0}", format!("{d:.0}")), ("{:.3}", format!("{d:.3}")), ("{:+.2}", format!("{d:+.2}")), ("{:30}", format!("{d:30}")), ("{:<5.1}", format!("{d:<5.1}"))] {
+            let q = parse_display(t.trim()).ok_or_else(|| format!("Display of {v} ns with {spec} is not an exact decimal seconds form: {t:?}"))?;
+            ensure_eq!(q, v, "Display of {v} ns with {spec} = {t:?} read back");
+        }
         // float view within tolerance (documented as approximate): 1 ulp-ish relative error
         let f = d.as_seconds_f64();
         let exact = v as f64 / 1e9;
@@ -296,6 +301,13 @@ impl SubCheck for Bin {
                     (a, D::of(b.clamp(-m, m)))
                 }),
                 1 => (dur(), -2_000_000_000i128..=2_000_000_000).prop_map(move |(a, e)| (a, D::of((a.ns() + e).clamp(-m, m)))),
+                // b a whole number of seconds, a +/- b in the last partial second beyond a limit (or just inside it)
+                2 => (-9_000_000_000_000_000i128..=9_000_000_000_000_000, -400_000_000i128..=400_000_000, any::<bool>(), any::<bool>()).prop_map(move |(bs, over, hi, sub)| {
+                    let b = bs * NS;
+                    let target = if hi { m + over } else { -m - over };
+                    let a = if sub { target + b } else { target - b };
+                    if a.abs() <= m { (D::of(a), D::of(b)) } else { (D::of(target.clamp(-m, m)), D::of(0)) }
+                }),
             ]
             .boxed(),
         )
